@@ -22,6 +22,7 @@ import Mixin.Model.Validate
   Ids and integers are decimal; scripts are hex. A later ledger line with the same key replaces
   an earlier one (entries are prepended, lookups take the first match).
     batch n b…   (individual Verify answers of a signature batch)
+    lock hash n (h i)…   (the listed outputs become locked by that payload hash)
 -/
 namespace Mixin.Driver.Validate
 open Mixin.Proto Mixin.Validate
@@ -184,6 +185,13 @@ def step (L : Ledger) (t : List String) : Ledger × String :=
   | "validate" :: r =>
     match finish validateLine r with
     | some (tx, o, fork) => (L, showOutcome (validate L o tx fork))
+    | none => (L, "bad-op")
+  | "lock" :: r =>
+    -- LockUTXOs: the listed outputs get locked by the given payload hash
+    match finish (do let h ← nat; let ins ← listOf (pair nat nat); pure (h, ins)) r with
+    | some (h, ins) =>
+      ({ L with utxos := L.utxos.map (fun u =>
+          if ins.contains (u.hash, u.index) then { u with lock := h } else u) }, "ok")
     | none => (L, "bad-op")
   | "batch" :: r =>
     -- BatchVerify is modelled as the conjunction of the individual answers over a non-empty batch
